@@ -8,7 +8,7 @@
     (TraverseSchema) and the construction of DFAContentModel from the converted tree (including the counting states
     used for the compact Loop form, whose intended semantics is the clause for [CLoop] in [Lc]) are tied to the code
     by the correspondence run only. *)
-From XV Require Import C08.Spec08 C08.Model08 C08.ModelDfa08 C08.Proofs08a C08.Proofs08b C08.Proofs08c C08.Proofs08d C08.Proofs08e C08.Proofs08f C08.Proofs08g C08.Proofs08h.
+From XV Require Import C08.Spec08 C08.Model08 C08.ModelDfa08 C08.Proofs08a C08.Proofs08b C08.Proofs08c C08.Proofs08d C08.Proofs08e C08.Proofs08f C08.Proofs08g C08.Proofs08h C08.Proofs08i.
 
 Notation u1 := 1%N. Notation u2 := 2%N. Notation u3 := 3%N. Notation u4 := 4%N.
 
@@ -289,3 +289,51 @@ Theorem T08_attwildcard_emptyunion_refuted :
   m_wexpr e = Some (NsNot u2) /\ m_wexpr_faithful e = None.
 Proof. cbv zeta. split; reflexivity. Qed.
 Print Assumptions T08_attwildcard_emptyunion_refuted.
+
+(** restriction of a complex type, attribute uses and attribute wildcard: the per-attribute loop of
+    TraverseSchema::checkAttDerivationOK and isWildCardSubset report no error exactly when clauses 2-4 of 3.4.6
+    Derivation Valid (Restriction, Complex) hold, for every base / derived declaration table -- outside two classes:
+    a prohibited declaration without a counterpart in the base, and a list containing ##local under a ##other base
+    wildcard (see the refutations) *)
+Theorem T08_attr_derivation : forall tder base bw decls dw,
+  no_stray_prohibited base decls = true -> no_absent_under_not bw dw = true ->
+  m_att_derivation tder base bw decls dw = attr_restriction_ok tder base bw decls dw.
+Proof. exact m_att_derivation_spec. Qed.
+Print Assumptions T08_attr_derivation.
+
+(** the Wildcard Subset table only relates wildcards that are subsets *)
+Theorem T08_wc_subset_sound : forall sub super, wc_subset sub super = true ->
+  forall x, wildcard_allows sub x = true -> wildcard_allows super x = true.
+Proof. exact wc_subset_sound. Qed.
+Print Assumptions T08_wc_subset_sound.
+
+Definition ex_base : list adecl :=
+  [ {| ad_name := (u1, 1%N); ad_use := URequired; ad_vc := VNone; ad_type := 0%N |};
+    {| ad_name := (u1, 2%N); ad_use := UOptional; ad_vc := VFixed [70%N]; ad_type := 0%N |} ].
+Example T08_attr_derivation_nonvacuous :
+  let tder := fun r b => (r =? b)%N || ((b =? 0)%N && (r =? 1)%N) in
+  let d1 u := {| ad_name := (u1, 1%N); ad_use := u; ad_vc := VNone; ad_type := 1%N |} in
+  let d2 v := {| ad_name := (u1, 2%N); ad_use := URequired; ad_vc := v; ad_type := 0%N |} in
+  no_stray_prohibited ex_base [d1 URequired; d2 (VFixed [70%N])] = true /\
+  m_att_derivation tder ex_base (Some (NsNot u2)) [d1 URequired; d2 (VFixed [70%N])] (Some (NsSet [u3])) = true /\
+  m_att_derivation tder ex_base None [d1 UOptional] None = false /\         (* required -> optional *)
+  m_att_derivation tder ex_base None [d1 UProhibited] None = false /\       (* required -> prohibited *)
+  m_att_derivation tder ex_base None [d2 (VFixed [71%N])] None = false /\   (* fixed value changed *)
+  m_att_derivation tder ex_base None [d2 VNone] None = false /\
+  m_att_derivation tder ex_base (Some (NsSet [u3])) [] (Some (NsSet [u3; u4])) = false /\   (* wildcard widened *)
+  m_att_derivation tder ex_base None [] (Some NsAny) = false.
+Proof. cbv zeta. repeat split; vm_compute; reflexivity. Qed.
+
+(** known findings on the faithful model of checkAttDerivationOK / isWildCardSubset *)
+Theorem T08_attr_derivation_strayprohibited_refuted :
+  let tder := fun r b => (r =? b)%N in
+  let d := {| ad_name := (u1, 4%N); ad_use := UProhibited; ad_vc := VNone; ad_type := 0%N |} in
+  attr_restriction_ok tder ex_base None [d] None = true /\ m_att_derivation tder ex_base None [d] None = false.
+Proof. cbv zeta. split; vm_compute; reflexivity. Qed.
+Print Assumptions T08_attr_derivation_strayprohibited_refuted.
+
+Theorem T08_wc_subset_absent_refuted :
+  m_wc_subset (NsNot u2) (NsSet [u1]) = true /\ wc_subset (NsSet [u1]) (NsNot u2) = false /\
+  wildcard_allows (NsSet [u1]) u1 = true /\ wildcard_allows (NsNot u2) u1 = false.
+Proof. repeat split; reflexivity. Qed.
+Print Assumptions T08_wc_subset_absent_refuted.
